@@ -56,40 +56,47 @@ def _ser_attr_ok(v: str) -> bool:
     return True
 
 
-_CH = "(c{i} == 9 or c{i} == 10 or 32 <= c{i} <= 55295 or 57344 <= c{i} <= 65533 or 65536 <= c{i} <= 1114111)"
+# Contiguous code point ranges only: a disjunction in a precondition forks the search at every
+# character, so the XML Char production is split into range patterns (one obligation each).
+RANGES = {"b": (32, 0xD7FF), "h": (0xE000, 0xFFFD), "a": (0x10000, 0x10FFFF), "c": (9, 10)}
+RANGE_DOC = {"b": "U+0020-U+D7FF", "h": "U+E000-U+FFFD", "a": "U+10000-U+10FFFF", "c": "TAB/LF"}
 
 
-def _mk(kind: str, n: int):
+def _mk(kind: str, pattern: str):
+    n = len(pattern)
     params = ", ".join(f"c{i}: int" for i in range(n))
-    pre = "\n".join("    pre: " + _CH.format(i=i) for i in range(n))
+    pre = "\n".join(f"    pre: {RANGES[r][0]} <= c{i} <= {RANGES[r][1]}" for i, r in enumerate(pattern))
     body = f"return _ser_{kind}_ok(S({', '.join(f'c{i}' for i in range(n))}))"
-    src = f'def c01_{kind}{n}({params}) -> bool:\n    """\n{pre}\n    post: _ == True\n    """\n    {body}\n'
+    src = f'def c01_{kind}_{pattern}({params}) -> bool:\n    """\n{pre}\n    post: _ == True\n    """\n    {body}\n'
     return src
 
 
-# generated into this module's namespace from source text so CrossHair sees real signatures
 import linecache  # noqa: E402
 
-for _kind, _lens_q, _lens_t in (("text", (1, 2, 3), (4,)), ("attr", (1, 2), (3, 4))):
-    for _n in _lens_q + _lens_t:
-        _src = _mk(_kind, _n)
-        _fname = f"<vf-generated C01 {_kind}{_n}>"
+_PATTERNS_Q = ["b", "h", "a", "c", "bb", "ab", "cb", "bc"]
+_PATTERNS_T = ["bbb", "abb", "bhb", "cbc", "bbbb"]
+_TO = {1: 60, 2: 200, 3: 900, 4: 3000}
+for _kind in ("text", "attr"):
+    for _pat in _PATTERNS_Q + _PATTERNS_T:
+        _n = len(_pat)
+        _src = _mk(_kind, _pat)
+        _fname = f"<vf-generated C01 {_kind} {_pat}>"
         linecache.cache[_fname] = (len(_src), None, _src.splitlines(True), _fname)
         _ns: dict = {}
         exec(compile(_src, _fname, "exec"), globals(), _ns)
-        _fn = _ns[f"c01_{_kind}{_n}"]
+        _fn = _ns[f"c01_{_kind}_{_pat}"]
         _fn.__module__ = __name__
         globals()[_fn.__name__] = _fn
         ob(
             "C01",
-            f"{'a' if _kind == 'text' else 'b'}.ser-{_kind}.len{_n}",
-            tiers=("quick", "thorough") if _n in _lens_q else ("thorough",),
-            timeout={1: 60, 2: 120, 3: 500, 4: 2400}[_n],
+            f"{'a' if _kind == 'text' else 'b'}.ser-{_kind}[{_pat}]",
+            tiers=("quick", "thorough") if _pat in _PATTERNS_Q else ("thorough",),
+            timeout=_TO[_n],
             kernel=K_SER,
             shims=("S2",),
-            symbolic=f"{_n} code points over XML 1.0 Char minus CR (U+9, U+A, U+20-U+D7FF, U+E000-U+FFFD, U+10000-U+10FFFF)",
-            bounds=f"{_kind} length exactly {_n}; compact and pretty serialisation",
-            weight={1: 5, 2: 15, 3: 80, 4: 600}[_n],
+            symbolic=f"{_n} code points, position i over " + ", ".join(RANGE_DOC[r] for r in _pat),
+            bounds=f"{_kind} length exactly {_n}; XML 1.0 Char (minus CR) covered by the union of the range patterns {_PATTERNS_Q + _PATTERNS_T}; compact and pretty serialisation",
+            weight={1: 5, 2: 40, 3: 400, 4: 2000}[_n],
         )(_fn)
 
 
@@ -175,10 +182,13 @@ from harness.common import tree  # noqa: E402
 from vf.registry import specialise  # noqa: E402
 
 
-def c01_tree(shape: int, n1: int, n2: int, a0: int, a1: int, b0: int, b1: int) -> bool:
+SEG = [(32, 126), (9, 10), (8232, 8233)]  # printable ASCII / TAB,LF / LINE+PARAGRAPH SEPARATOR
+
+
+def c01_tree(shape: int, rp: int, n1: int, n2: int, a0: int, a1: int, b0: int, b1: int) -> bool:
     """
-    vpre: (a0 == 9 or a0 == 10 or 32 <= a0 <= 126) and (a1 == 9 or a1 == 10 or 32 <= a1 <= 126)
-    vpre: (b0 == 9 or b0 == 10 or 32 <= b0 <= 126) and (b1 == 9 or b1 == 10 or 32 <= b1 <= 126)
+    vpre: SEG[rp][0] <= a0 <= SEG[rp][1] and 32 <= a1 <= 126
+    vpre: 32 <= b0 <= 126 and 32 <= b1 <= 126
     vpost: _ == True
     """
     t1 = S(*((a0, a1)[:n1])) if n1 else "x"
@@ -196,11 +206,12 @@ specialise(
     "C01",
     "c.ser-tree",
     c01_tree,
-    {"shape": list(range(1, SH.N_SHAPES)), "n1": [1], "n2": [0]},
+    {"shape": list(range(1, SH.N_SHAPES)), "rp": [0, 1, 2], "n1": [1], "n2": [0]},
+    reach_if=lambda fx: fx["rp"] == 0,
     timeout=300,
     kernel=K_SER + ("xml.dom.minidom:Text.writexml",),
     shims=("S2", "S5"),
-    symbolic="first text/attribute segment = 1 symbolic character over printable ASCII + TAB + LF (second segment fixed); full Unicode is decided by a/b",
+    symbolic="first text/attribute segment = 1 symbolic character over a contiguous range fixed per instance (printable ASCII / TAB-LF / U+2028-2029), second segment fixed; full Unicode is decided by a/b",
     bounds="shape fixed per instance (9 shapes); parse-back equals the tree modulo the writer's single boundary space in mixed content",
     weight=60,
 )
@@ -208,7 +219,8 @@ specialise(
     "C01",
     "c.ser-tree",
     c01_tree,
-    {"shape": list(range(1, SH.N_SHAPES)), "n1": [1, 2], "n2": [1]},
+    {"shape": list(range(1, SH.N_SHAPES)), "rp": [0, 1], "n1": [1, 2], "n2": [1]},
+    reach_if=lambda fx: fx["rp"] == 0 and fx["n1"] == 1,
     tiers=("thorough",),
     timeout=1800,
     kernel=K_SER + ("xml.dom.minidom:Text.writexml",),
@@ -250,3 +262,228 @@ def c01_homomorphism(a0: int, a1: int, b0: int, b1: int) -> bool:
         return w.getvalue()
 
     return wd(t1 + t2) == wd(t1) + wd(t2)
+
+
+# ---- g: SKELETON + namespace validity on whole forms ----------------------------------------
+from harness.common import build_survey, chars_violation, child_elements, elements, names_violation  # noqa: E402
+from pyxform.errors import PyXFormError  # noqa: E402
+
+shims.standard()
+
+
+def _skeleton_ok(root) -> bool:
+    if root.tagName != "h:html":
+        return False
+    kids = child_elements(root)
+    if [k.tagName for k in kids] != ["h:head", "h:body"]:
+        return False
+    hk = child_elements(kids[0])
+    if [k.tagName for k in hk] != ["h:title", "model"]:
+        return False
+    insts = [c for c in child_elements(hk[1]) if c.tagName == "instance"]
+    if not insts or insts[0].hasAttribute("id") or insts[0].hasAttribute("src"):
+        return False
+    prim = child_elements(insts[0])
+    return len(prim) == 1 and prim[0].hasAttribute("id")
+
+
+def c01_skeleton(feat: int, t0: int, t1: int, n0: int, n1: int) -> bool:
+    """
+    vpre: 33 <= t0 <= 126 and t0 != 36 and 33 <= t1 <= 126 and t1 != 36
+    vpre: 97 <= n0 <= 122 and 97 <= n1 <= 122
+    vpost: _ == True
+    """
+    T, N = S(t0, t1), S(n0, n1)
+    rows = [{"type": "text", "name": N, "label": T}]
+    wb = {"survey": rows, "settings": [{"form_title": T, "form_id": "f" + N}]}
+    if feat == 1:  # submission + itext + secondary instance
+        wb["settings"][0]["submission_url"] = "http://x/" + N
+        rows[0]["label::L1"] = T
+        rows.append({"type": "select_one l1", "name": "s", "label": "S"})
+        wb["choices"] = [{"list_name": "l1", "name": "a", "label": T}]
+    elif feat == 2:  # repeat + entity + custom namespace + external instance
+        rows[:] = [{"type": "begin repeat", "name": "r", "label": T}, rows[0], {"type": "end repeat"}, {"type": "xml-external", "name": "ext"}]
+        wb["entities"] = [{"dataset": "ds", "label": "a"}]
+        wb["settings"][0]["namespaces"] = 'ex="http://e/' + N + '"'
+        wb["settings"][0]["attribute::ex:k"] = T
+    elif feat == 3:  # audit, trigger, dynamic default, range
+        rows += [{"type": "audit", "name": "audit"}, {"type": "calculate", "name": "c", "calculation": "1", "trigger": "${" + "q0}"}, {"type": "text", "name": "q0", "label": "Q", "default": "now()"}, {"type": "range", "name": "rg", "label": T, "parameters": "start=1 end=5 step=1"}]
+        rows.insert(0, rows.pop(3))
+    survey, _w, _js = build_survey(wb, form_name="d" + N)
+    root = survey.xml()
+    if not _skeleton_ok(root):
+        return False
+    prim = child_elements([c for c in elements(root, "instance")][0])[0]
+    if prim.tagName != "d" + N or prim.getAttribute("id") != "f" + N:
+        return False
+    return names_violation(root) is None and chars_violation(root) is None
+
+
+specialise(
+    "C01",
+    "g.skeleton",
+    c01_skeleton,
+    {"feat": [0, 1, 2, 3]},
+    timeout=400,
+    kernel=("pyxform.survey:Survey.xml", "pyxform.survey:Survey.xml_model", "pyxform.survey:Survey.xml_instance", "pyxform.survey:Survey.get_nsmap", "pyxform.xls2json:workbook_to_json"),
+    shims=("S1", "S2", "S3", "S4"),
+    symbolic="title/label text (2 symbolic characters) and a 2-letter name used for the question, form id and form name",
+    bounds="feature mix fixed per instance: plain; submission+itext+choices; repeat+entity+namespaces+external instance; audit+trigger+dynamic default+range",
+    weight=60,
+)
+
+
+# ---- e/h: header-derived names, prefixes and non-XML characters (known findings + companions) ----
+BAD_NAMES = ["a<b", "a b", "1x", 'a"b']
+GOOD_NAMES = ["abc", "a-b.c", "_x1"]
+CHANNELS = ["bind::", "body::", "instance::", "choices-column", "attribute::", "namespaces-prefix"]
+
+
+def _channel_wb(ch: int, K: str, V: str):
+    q = {"type": "select_one l1", "name": "q1", "label": "L"}
+    wb = {"survey": [q], "choices": [{"list_name": "l1", "name": "a", "label": "A"}]}
+    if ch == 0:
+        q["bind::" + K] = V
+    elif ch == 1:
+        q["body::" + K] = V
+    elif ch == 2:
+        q["instance::" + K] = V
+    elif ch == 3:
+        wb["choices"][0][K] = V
+    elif ch == 4:
+        wb["settings"] = [{"attribute::" + K: V}]
+    else:
+        wb["settings"] = [{"namespaces": K + '="http://e/' + V + '"'}]
+    return wb
+
+
+def c01_channels(ch: int, bad: bool, ki: int, v0: int, v1: int) -> bool:
+    """
+    vpre: 0 <= ki <= 2
+    vpre: 97 <= v0 <= 122 and 97 <= v1 <= 122
+    vpost: _ == True
+    """
+    K = (BAD_NAMES + BAD_NAMES)[ki] if bad else GOOD_NAMES[ki]
+    try:
+        survey, _w, _js = build_survey(_channel_wb(ch, K, S(v0, v1)))
+        root = survey.xml()
+    except PyXFormError:
+        return True
+    return names_violation(root) is None
+
+
+def _classify_channels(call, replay):
+    return "F2"
+
+
+specialise(
+    "C01",
+    "e.name-channels",
+    c01_channels,
+    {"ch": [0, 1, 2, 3, 4, 5], "bad": [False]},
+    timeout=300,
+    kernel=("pyxform.parsing.sheet_headers:process_header", "pyxform.parsing.sheet_headers:process_row", "pyxform.survey_element:SurveyElement.xml_bindings", "pyxform.question:Question._build_xml", "pyxform.question:Question.xml_instance", "pyxform.survey:Survey._generate_static_instances", "pyxform.survey:Survey.xml_instance", "pyxform.survey:Survey.get_nsmap", "pyxform.validators.pyxform.choices:validate_headers"),
+    shims=("S1", "S2", "S3", "S4"),
+    symbolic="header-derived name chosen by a symbolic index from 3 valid XML names (header text is a dict key: concrete), cell value of 2 symbolic letters",
+    bounds="channel fixed per instance: bind::K, body::K, instance::K, choices extra column K, settings attribute::K, namespaces prefix K",
+    weight=40,
+)
+specialise(
+    "C01",
+    "e.name-channels-unvalidated",
+    c01_channels,
+    {"ch": [0, 1, 2, 3, 4, 5], "bad": [True]},
+    timeout=300,
+    kernel=("pyxform.parsing.sheet_headers:process_header", "pyxform.survey_element:SurveyElement.xml_bindings", "pyxform.question:Question._build_xml", "pyxform.survey:Survey.xml_instance"),
+    shims=("S1", "S2", "S3", "S4"),
+    symbolic="header-derived name chosen by a symbolic index from names that are not XML names ('a<b', 'a b', '1x'), cell value of 2 symbolic letters",
+    bounds="channel fixed per instance; expected to reproduce known finding F2 (header text reaches XML name positions unvalidated)",
+    weight=30,
+    expect="known",
+    classifier=_classify_channels,
+)
+
+
+def c01_prefix(where: int, p0: int, p1: int) -> bool:
+    """
+    vpre: 97 <= p0 <= 122 and 97 <= p1 <= 122
+    vpost: _ == True
+    """
+    P = S(p0, p1)
+    q = {"type": "text", "name": "q1", "label": "L"}
+    if where == 0:
+        q["name"] = P + ":q"
+    try:
+        survey, _w, _js = build_survey({"survey": [q]})
+        root = survey.xml()
+    except PyXFormError:
+        return True
+    return names_violation(root) is None
+
+
+specialise(
+    "C01",
+    "e.undeclared-prefix",
+    c01_prefix,
+    {"where": [0]},
+    timeout=300,
+    kernel=("pyxform.parsing.expression:is_xml_tag", "pyxform.xls2json:workbook_to_json", "pyxform.survey:Survey.get_nsmap"),
+    shims=("S1", "S2", "S3", "S4"),
+    symbolic="a 2-letter prefix used in a question name 'pp:q' without declaring it",
+    bounds="expected to reproduce known finding F17 (names with an undeclared namespace prefix are accepted)",
+    weight=30,
+    expect="known",
+    classifier=lambda call, replay: "F17",
+)
+
+
+def c01_nonchar(ch: int, c0: int) -> bool:
+    """
+    vpre: 1 <= c0 <= 8
+    vpost: _ == True
+    """
+    t = "a" + S(c0) + "b"
+    wb = {"survey": [{"type": "text", "name": "q1", "label": t if ch == 0 else "L", "hint": t if ch == 1 else "h"}]}
+    try:
+        survey, _w, _js = build_survey(wb)
+        root = survey.xml()
+    except PyXFormError:
+        return True
+    return chars_violation(root) is None
+
+
+specialise(
+    "C01",
+    "h.non-xml-char",
+    c01_nonchar,
+    {"ch": [0, 1]},
+    timeout=200,
+    kernel=("pyxform.xls2json:clean_text_values", "pyxform.survey_element:SurveyElement.xml_label", "pyxform.utils:node"),
+    shims=("S1", "S2", "S3", "S4"),
+    symbolic="a control character U+0001-U+0008 inside a label / hint",
+    bounds="expected to reproduce known finding F8 (characters outside XML 1.0 Char are written raw)",
+    weight=20,
+    expect="known",
+    classifier=lambda call, replay: "F8",
+)
+
+
+
+# ---- a': entity-looking text (needs '&' + name + ';') -----------------------------------------
+@ob(
+    "C01",
+    "a.ser-entity-like",
+    timeout=300,
+    kernel=K_SER,
+    shims=("S2",),
+    symbolic="text '&' + 2 symbolic characters (U+0023-U+007A: '#', digits, letters, ';' ...) + ';' as element text and as attribute value",
+    bounds="entity-like sequences of total length 4",
+    weight=40,
+)
+def c01_entity_like(c0: int, c1: int) -> bool:
+    """
+    pre: 35 <= c0 <= 122 and 35 <= c1 <= 122
+    post: _ == True
+    """
+    t = "&" + S(c0, c1) + ";"
+    return _ser_text_ok(t) and _ser_attr_ok(t)
